@@ -33,19 +33,27 @@ def run_case(case, via_facade=False):
     kw = matchgen.call_kwargs(case)
     if via_facade:
         xr, yr = np.array(case["x_ref"], dtype=float), np.array(case["y_ref"], dtype=float)
-        cx, cy = case.get("facade_pre") or (1.0, 1.0)
-        if not (np.array_equal((xr / cx) * cx, xr) and np.array_equal((yr / cy) * cy, yr)
-                and np.all(np.diff(xr / cx) > 0)):
-            cx = cy = 1.0
-        # the series is constructed in other units and converted: the reference follows, the original does not
-        w = Weaver(xr / cx, yr / cy)
-        if cx != 1.0:
-            w.scale_x(cx)
-        if cy != 1.0:
-            w.scale_y(cy)
-        rx, ry = w.get_reference()
-        if not (np.array_equal(rx, xr) and np.array_equal(ry, yr)):
-            w = Weaver(xr, yr)          # exactness of the unit conversion is C14's subject, not judged here
+        pre = list(case.get("facade_pre") or (1.0, 1.0)) + [0.0, 0.0]
+        cx, cy, sx, sy = pre[:4]
+        # the series is constructed in other units / with another origin and converted: the reference follows, the
+        # original does not (scales are powers of two; the conversion is used only when it is exact)
+        x0, y0 = (xr - sx) / cx, (yr - sy) / cy
+        w = None
+        if np.all(np.diff(x0) > 0) and np.array_equal(x0 * cx + sx, xr) and np.array_equal(y0 * cy + sy, yr):
+            w = Weaver(x0, y0)
+            if cx != 1.0:
+                w.scale_x(cx)
+            if cy != 1.0:
+                w.scale_y(cy)
+            if sx != 0.0:
+                w.shift_x(sx)
+            if sy != 0.0:
+                w.shift_y(sy)
+            rx, ry = w.get_reference()
+            if not (np.array_equal(rx, xr) and np.array_equal(ry, yr)):
+                w = None                # exactness of the unit conversion is C14's subject, not judged here
+        if w is None:
+            w = Weaver(xr, yr)
         w.x, w.y = np.array(x, dtype=float), np.array(y, dtype=float)
         out = w.integral_match(**kw).get()
         if not (isinstance(out, tuple) and len(out) == 2):
